@@ -33,6 +33,7 @@ class Seam:
         self.violations = []  # ("use_after_close"|"double_close", call, fd name)
         self.raw_events = []  # every raw inotify event handed to the library (wd, mask, cookie, name)
         self._orig = {}
+        self.drop_dir_noise = False  # drop OPEN|ISDIR / CLOSE_NOWRITE|ISDIR (the library's own directory listings)
         self.script = []  # scripted native batches (bytes) handed out instead of kernel data (C08)
         self.script_fd = None
         self.on_script_read = None
@@ -256,8 +257,8 @@ class Seam:
         i = 0
         while i + 16 <= len(buf):
             wd, mask, cookie, ln = struct.unpack_from("iIII", buf, i)
-            evs.append(buf[i : i + 16 + ln])
-            self_ev = (wd, mask, cookie, buf[i + 16 : i + 16 + ln].rstrip(b"\0"))
+            if not (self.drop_dir_noise and (mask & 0x40000000) and (mask & 0x30) and not (mask & ~0x40000030)):
+                evs.append(buf[i : i + 16 + ln])
             i += 16 + ln
         k = len(evs)
         if self.split_reads and k > 1:
